@@ -47,6 +47,7 @@ bool Value::extract_values(std::vector<std::vector<uint8_t>>& values) {
 }
 
 void Value::verify_sig(bool compact) {
+    static ECCVerifyHandle verify_handle; // (btcc has no Instance, which holds one for the other tools: verification asserted on the missing context)
     // the value is a script-style push of the sighash, pubkey, and signature
     if (type != T_DATA) abort("invalid type (must be data)");
     std::vector<std::vector<uint8_t>> args;
